@@ -27,9 +27,19 @@ const behExit0 = 4
 
 func c05IsExit(b int) bool  { return b == drive.BehExit || b == behExit0 }
 func c05Raises(b int) bool  { return b == drive.BehPanic || c05IsExit(b) }
+// exit statuses: small distinct ones, and per hook position also values beyond a byte, negative and large ones (the
+// status handed to the exit function must be the one given to Exit, whatever the operating system makes of it)
 func c05Code(b, i int) int {
 	if b == behExit0 {
 		return 0
+	}
+	switch i % 4 {
+	case 1:
+		return 300 + i
+	case 2:
+		return -(1 + i)
+	case 3:
+		return 70000 + i
 	}
 	return 10 + i
 }
@@ -37,7 +47,7 @@ func c05Beh(b, i int) drive.Beh {
 	if b == behExit0 {
 		return drive.Beh{Kind: drive.BehExit, Code: 0}
 	}
-	return drive.Beh{Kind: b, Code: 10 + i}
+	return drive.Beh{Kind: b, Code: c05Code(b, i)}
 }
 
 // digest of a configuration: selects the error policy and what kind of value each panicking hook raises
@@ -131,7 +141,7 @@ func (k c05Cfg) describe() string {
 	for i, n := range k.names() {
 		s := n + ":" + kinds[k.beh[i]]
 		if k.beh[i] == drive.BehExit {
-			s += fmt.Sprintf("(%d)", 10+i)
+			s += fmt.Sprintf("(%d)", c05Code(k.beh[i], i))
 		}
 		ps = append(ps, s)
 	}
@@ -193,7 +203,7 @@ func (k c05Cfg) model() (events []string, last int) {
 func (k c05Cfg) tree() *drive.Cmd {
 	var root, cur *drive.Cmd
 	for i := 0; i <= k.d; i++ {
-		n := &drive.Cmd{ID: i, Aliases: []string{fmt.Sprintf("c%d", i)}, Prog: &Prog{}, Parent: cur}
+		n := &drive.Cmd{ID: i, Aliases: []string{fmt.Sprintf("c%d", i), fmt.Sprintf("c%d_alias", i), fmt.Sprintf("k%d", i)}, Prog: &Prog{}, Parent: cur}
 		n.Before = c05Beh(k.beh[i], i)
 		n.Before.PanKind = (k.digest() + i) % 4
 		hi := k.d + 1 + (k.d - i) + 1
@@ -215,10 +225,18 @@ func (k c05Cfg) tree() *drive.Cmd {
 	return root
 }
 
+// the path is written with the first name or one of the aliases of each command, chosen by the configuration
 func (k c05Cfg) argv() []string {
 	var a []string
 	for i := 1; i <= k.d; i++ {
-		a = append(a, fmt.Sprintf("c%d", i))
+		switch (k.digest() + i) % 3 {
+		case 0:
+			a = append(a, fmt.Sprintf("c%d", i))
+		case 1:
+			a = append(a, fmt.Sprintf("c%d_alias", i))
+		default:
+			a = append(a, fmt.Sprintf("k%d", i))
+		}
 	}
 	return a
 }
@@ -365,7 +383,7 @@ func c05Child(args []string) int {
 			case drive.BehPanic:
 				panic(fmt.Sprintf("PANICVALUE-%s", names[i]))
 			case drive.BehExit:
-				cli.Exit(10 + i)
+				cli.Exit(c05Code(k.beh[i], i))
 			case behExit0:
 				cli.Exit(0)
 			}
@@ -379,7 +397,7 @@ func c05Child(args []string) int {
 			c.Action = hook(k.d + 1)
 			return
 		}
-		c.Command(fmt.Sprintf("c%d", lvl+1), "", func(sc *cli.Cmd) { build(sc, lvl+1) })
+		c.Command(fmt.Sprintf("c%d c%d_alias k%d", lvl+1, lvl+1, lvl+1), "", func(sc *cli.Cmd) { build(sc, lvl+1) })
 	}
 	build(app.Cmd, 0)
 	err := app.Run(append([]string{"c0"}, k.argv()...))
@@ -422,7 +440,7 @@ func c05RealProcess(c *core.Ctx, k c05Cfg) {
 	case last < 0:
 		want = append(want, "RET")
 	case c05IsExit(k.beh[last]):
-		wantStatus = c05Code(k.beh[last], last)
+		wantStatus = int(uint8(c05Code(k.beh[last], last))) // what the operating system keeps of the status
 	default:
 		wantStatus = 2 // Go runtime: unrecovered panic
 	}
